@@ -29,6 +29,83 @@ func runC10(c *Ctx) {
 	c10R2(c)
 	receiverPerCall(c, "R3")
 	c10R4(c)
+	interpreterState(c, "R6")
+}
+
+// the fields of Evaluator and what they are for; anything else that evaluation writes is a memory of
+// earlier evaluations
+var evaluatorFields = map[string]string{
+	"prog": "the parsed program", "lexer": "the program text (positions, literal text)", "stdout": "the output",
+	"root": "the current root value (C14/R4)", "ruleRoot": "what `$` denotes (C02/R4)", "stackTop": "the frame stack (C08/R1)",
+	"returnVal": "the return slot (C07/R4)", "beginRules": "rule lists (C02/R1)", "beginFileRules": "rule lists (C02/R1)",
+	"patternRules": "rule lists (C02/R1)", "endRules": "rule lists (C02/R1)", "endFileRules": "rule lists (C02/R1)",
+	"fuzzing": "the fuzzer's loop cap (C07/R9)",
+}
+
+// interpreterState: evaluation has no memory besides the documented state. A cache, a counter or a
+// `last call site` kept in the evaluator or in the syntax tree makes the result of an evaluation depend
+// on the evaluations before it.
+func interpreterState(c *Ctx, rule string) {
+	p := c.P
+	c.note("%s interpreter-state: (a) the only fields of Evaluator written (stored, or updated when they are maps) outside its constructor are the documented ones: %s — each covered by its own rule; (b) no function outside the parser stores into a field of a syntax-tree node (Expr*, Statement*, Rule, MatchCase, ObjectKeyValue, Program): the tree is the same for every evaluation.", rule, strings.Join(sortedSet(setOfKeys(evaluatorFields)), ", "))
+	ne := p.LangFunc("NewEvaluator")
+	n := 0
+	for _, fn := range p.Funcs {
+		if !p.InLang(fn) || p.inTestFile(fn) {
+			continue
+		}
+		inCtor := ne != nil && p.inClusterOf(ne, fn)
+		isParserFn := strings.Contains(shortName(fn), "Parser") || (fn.Parent() == nil && isParselet(fn))
+		allInstrs(fn, func(in ssa.Instruction) {
+			switch x := in.(type) {
+			case *ssa.Store:
+				sf, ok := fieldOfAddr(x.Addr)
+				if !ok || sf.Struct == nil {
+					return
+				}
+				sn := sf.Struct.Obj().Name()
+				if sn == "Evaluator" {
+					n++
+					if _, known := evaluatorFields[sf.Name]; !known && !inCtor {
+						c.violated(rule, "evaluator-state Evaluator."+sf.Name+" in "+shortName(fn), p.InstrPos(x), "Evaluator."+sf.Name+" is not part of the documented interpreter state and is written during evaluation: what an evaluation yields then depends on the evaluations before it (a cache that is never invalidated, a counter, a remembered position)")
+					}
+					return
+				}
+				if !isParserFn && isSyntaxNodeName(sn) && sf.Struct.Obj().Pkg() == p.Lang.Types {
+					n++
+					c.violated(rule, "syntax-tree-store "+sn+"."+sf.Name+" in "+shortName(fn), p.InstrPos(x), "a field of the syntax-tree node "+sn+" is written outside the parser: the tree (and with it the meaning of the program text) changes while the program runs")
+				}
+			case *ssa.MapUpdate:
+				ld, ok := x.Map.(*ssa.UnOp)
+				if !ok {
+					return
+				}
+				if sf, ok := fieldOfAddr(ld.X); ok && sf.Struct != nil && sf.Struct.Obj().Name() == "Evaluator" {
+					n++
+					if _, known := evaluatorFields[sf.Name]; !known && !inCtor {
+						c.violated(rule, "evaluator-state Evaluator."+sf.Name+" in "+shortName(fn), p.InstrPos(x), "the map Evaluator."+sf.Name+" is not part of the documented interpreter state and is filled during evaluation: a memo that later evaluations read")
+					}
+				}
+			}
+		})
+	}
+	if n < 10 {
+		c.undecided(rule, "interpreter-state instance-floor", "", fmt.Sprintf("%d stores to Evaluator fields found, 15 expected", n))
+	} else {
+		c.ok(rule, "interpreter-state", "", fmt.Sprintf("%d stores to Evaluator fields, all documented; no store into a syntax-tree node outside the parser", n))
+	}
+}
+
+func isSyntaxNodeName(n string) bool {
+	return strings.HasPrefix(n, "Expr") || strings.HasPrefix(n, "Statement") || n == "Rule" || n == "MatchCase" || n == "ObjectKeyValue" || n == "Program"
+}
+
+func setOfKeys(m map[string]string) map[string]bool {
+	out := map[string]bool{}
+	for k := range m {
+		out[k] = true
+	}
+	return out
 }
 
 // mapRangeOrder (C10/R1, C07/R5, C17/R4)
